@@ -68,6 +68,21 @@ class T(Val):      # unknown; opt = may be None
         self.opt = opt
 
 
+def _fold_const(e, env, consts):
+    """value of an expression that involves only constants / constant locals, else raises"""
+    from . import fold as _fold
+    fenv = dict(consts)
+    for k, v in env.items():
+        if isinstance(v, C) and not (isinstance(v.v, tuple) and v.v[:1] in (('PAT',), ('TOKENS',))):
+            fenv[k] = v.v
+    for n in ast.walk(e):
+        if isinstance(n, ast.Name) and n.id in env and n.id not in fenv:
+            raise ValueError('abstract value')
+        if isinstance(n, (ast.Call,)) and isinstance(n.func, ast.Attribute) and n.func.attr in ('match', 'search', 'group'):
+            raise ValueError('pattern operation')
+    return _fold.Folder().expr(e, fenv)
+
+
 class Interp:
     """one analysis of function `fname` of `tree` for parameter language `param_lang`"""
 
@@ -140,6 +155,16 @@ class Interp:
             return [(e, i) for v, e, i in self.ev(st.value, env, inp)]
         if isinstance(st, ast.Pass):
             return [(env, inp)]
+        if isinstance(st, ast.Assign) and len(st.targets) == 1 and isinstance(st.targets[0], ast.Name) \
+                and not isinstance(st.value, (ast.Constant, ast.Name)):
+            try:
+                val = _fold_const(st.value, env, self.consts)
+                if isinstance(val, (int, float, list, tuple)) and not isinstance(val, bool):
+                    e2 = dict(env)
+                    e2[st.targets[0].id] = C(list(val) if isinstance(val, tuple) else val)
+                    return [(e2, inp)]
+            except Exception:
+                pass
         if isinstance(st, ast.Assign) and len(st.targets) == 1:
             out = []
             for v, e, i in self.ev(st.value, env, inp):
@@ -206,6 +231,22 @@ class Interp:
                     nxt += self.block(st.body, e, i)
                 states = nxt
             return states
+        if isinstance(st, ast.For) and isinstance(st.target, ast.Name) and not st.orelse:
+            # an iterable that folds to a finite list of constants (range(...), a constant table): unroll
+            try:
+                items = list(_fold_const(st.iter, env, self.consts))
+            except Exception:
+                items = None
+            if items is not None and len(items) <= 64 and all(isinstance(x, (int, str)) and not isinstance(x, bool) for x in items):
+                states = [(env, inp)]
+                for c in items:
+                    nxt = []
+                    for e, i in states:
+                        e = dict(e)
+                        e[st.target.id] = C(c)
+                        nxt += self.block(st.body, e, i)
+                    states = nxt
+                return states
         raise AnalysisError('%s: statement form %s at line %d is outside the supported subset' % (
             self.fname, type(st).__name__, st.lineno))
 
